@@ -19,3 +19,5 @@ cd ..
 echo "[]" > ../work/empty_cases.json
 MIRIFLAGS="-Zmiri-disable-isolation -Zmiri-tree-borrows" cargo +nightly miri run --bin c09 --target-dir target/miri -- --replay-many ../work/empty_cases.json 2>&1 | tail -1
 MIRIFLAGS="-Zmiri-disable-isolation -Zmiri-tree-borrows" cargo +nightly miri run --bin c02 --target-dir target/miri -- --replay-many ../work/empty_cases.json 2>&1 | tail -1
+MIRIFLAGS="-Zmiri-disable-isolation -Zmiri-tree-borrows" cargo +nightly miri run --bin c10 --target-dir target/miri -- --replay-many ../work/empty_cases.json 2>&1 | tail -1
+MIRIFLAGS="-Zmiri-disable-isolation -Zmiri-tree-borrows" cargo +nightly miri run --bin c11 --target-dir target/miri -- --replay-many ../work/empty_cases.json 2>&1 | tail -1
